@@ -4,11 +4,17 @@ Engine E1 (tasks): 1..12 real input Deferreds (some pre-fired, each with a
 tape-chosen canceller behaviour) are handed to one real aggregate
 (DeferredList with a flag combination, gatherResults, or race).  The tape then
 interleaves: fire an input (success/failure), cancel an input directly, add a
-late observer callback to an input, cancel the aggregate.  A recording callback
+late observer callback to an input, cancel the aggregate, and - when the inputs
+were handed over as the caller's own list object - an edit of that list by the
+caller (clear / pop / append / insert / reverse / item- and slice-assignment).
+The inputs are handed over as a list, a tuple, a non-list Sequence or (where the
+interface takes any iterable) a one-shot iterator.  A recording callback
 added to every input *before* aggregation yields the firing history; the oracle
 is a functional specification of the aggregate's outcome as a function of that
 history, evaluated after every operation.
 """
+from collections.abc import Sequence
+
 from twisted.internet import defer
 from twisted.python.failure import Failure
 
@@ -24,11 +30,18 @@ COMPONENTS = {"real": ["twisted.internet.defer.DeferredList", "twisted.internet.
                        "twisted.internet.defer.race", "twisted.internet.defer.Deferred"],
               "stub": ["order in which inputs fire / are cancelled / get late callbacks (tape)"]}
 RULE = ("run = 1..12 inputs (mostly 1..5; each optionally pre-fired; canceller in {none, noop, fires success, fires failure, raises[DeferredList only]}) "
-        "given to DeferredList(8 flag combinations) / gatherResults(+-consumeErrors) / race, then tape-chosen operations until every input fired: "
-        "fire input ok/fail, cancel input, add late observer, cancel aggregate; non-trivial = >=2 inputs, at least one input fired after "
+        "given to DeferredList(8 flag combinations) / gatherResults(+-consumeErrors) / race - handed over as the caller's list (left alone, or edited "
+        "by the caller after the call returned: clear/pop/append/insert/reverse/setitem/slice-assign/del-slice, right away and/or between later operations), "
+        "a tuple, a non-list Sequence, or a one-shot iterator [DeferredList/gatherResults] - then tape-chosen operations until every input fired: "
+        "fire input ok/fail, cancel input, add late observer, cancel aggregate, edit the caller's list; non-trivial = >=2 inputs, at least one input fired after "
         "aggregation and at least one failure or cancellation occurred")
 ASSUMPTIONS = ["inputs are distinct Deferreds; no operation is issued from inside a callback except what cancellers do to their own Deferred",
-               "a canceller that raises is used only with DeferredList (whose cancel documents catching it)"]
+               "a canceller that raises is used only with DeferredList (whose cancel documents catching it)",
+               "the aggregate is defined over the Deferreds that were in the sequence when the call was made: what the caller does to its own "
+               "list object afterwards changes nothing, and a Deferred that was never handed over (put into that list later) is never cancelled "
+               "by the aggregate (DeferredList: upstream test_cancelDeferredListWithOriginalDeferreds; race: its own 'copy the sequence' comment)",
+               "race is declared over a Sequence, so it is given list / tuple / a collections.abc.Sequence; one-shot iterators only go to "
+               "DeferredList and gatherResults (declared over Iterable)"]
 
 
 class Boom(Exception):
@@ -45,6 +58,22 @@ class CountingDeferred(defer.Deferred):
     def cancel(self):
         self.cancel_calls += 1
         defer.Deferred.cancel(self)
+
+
+class PlainSequence(Sequence):
+    """A read-only Sequence that is neither a list nor a tuple."""
+
+    def __init__(self, items):
+        self._items = tuple(items)
+
+    def __getitem__(self, i):
+        return self._items[i]
+
+    def __len__(self):
+        return len(self._items)
+
+
+EDITS = ["clear", "append", "pop", "reverse", "slice-assign", "pop-first", "insert-first", "setitem", "del-slice"]
 
 
 def _first(history, want_ok):
@@ -151,8 +180,15 @@ def run(sim):
         plan.append((sim.draw_weighted([("none", 4), ("noop", 2), ("succ", 2), ("fail", 2), ("raise", 1 if kind == "dl" else 0)], "canceller"),
                      sim.draw_weighted([("no", 5), ("ok", 2), ("fail", 2)], "prefire")))
     chained_ok = sim.draw_bool(0.5, "deferred_shapes")
+    # how the inputs are handed over; "list-edited" = the caller's own list, which the caller goes on using afterwards
+    passed_as = sim.draw_weighted([("list", 4), ("list-edited", 5), ("tuple", 2), ("sequence", 1),
+                                   ("iterator", 0 if kind == "race" else 1)], "passed_as")
+    edit_now_p, edit_w = 0.0, 0
+    if passed_as == "list-edited":
+        edit_now_p, edit_w = sim.draw_choice([(0.7, 2), (1.0, 0), (0.0, 3)], "edit_timing")
     sim.config = {"n": n, "kind": kind, "flags": list(flags), "cancel_w": cancel_w,
-                  "cancellers": [p[0] for p in plan], "prefire": [p[1] for p in plan], "shapes": chained_ok}
+                  "cancellers": [p[0] for p in plan], "prefire": [p[1] for p in plan], "shapes": chained_ok,
+                  "passed_as": passed_as, "edit_now_p": edit_now_p, "edit_w": edit_w}
 
     history = []            # (index, ok, payload) in firing order, as seen by the first callback of each input
     observed = {}           # (index, observer id) -> list of results seen
@@ -160,7 +196,8 @@ def run(sim):
     canceller_calls = [0] * n
     user_cancels = [0] * n
     serial = [0]
-    st = {"agg_cancels": 0, "fired_after": 0, "failures": 0, "cancels": 0, "win_checked": False}
+    st = {"agg_cancels": 0, "fired_after": 0, "failures": 0, "cancels": 0, "win_checked": False, "edits": 0}
+    outsiders = []          # Deferreds the caller put into its own list AFTER the aggregate was made: never part of it
 
     def fresh():
         serial[0] += 1
@@ -290,7 +327,11 @@ def run(sim):
                 sim.check("race-spares-winner", inputs[w].cancel_calls == user_cancels[w], "winner",
                           "winner %d received %d cancel() calls (%d by the caller)" % (w, inputs[w].cancel_calls, user_cancels[w]))
                 sim.probe("race_won")
-        sim.state((kind, flags, min(n, 6), len(history), exp[0] if exp else "-"))
+        # a Deferred that was never handed to the aggregate (the caller put it into its list afterwards) is left alone
+        for k, x in enumerate(outsiders):
+            sim.check("outsider-cancelled", x.cancel_calls == 0, kind,
+                      "Deferred %d, put into the caller's list after the call, received %d cancel() calls" % (k, x.cancel_calls))
+        sim.state((kind, flags, min(n, 6), len(history), exp[0] if exp else "-", passed_as if not st["edits"] else "edited"))
 
     def snapshot():
         return {"unfired": set(j for j in range(n) if not done[j]), "cc": [d.cancel_calls for d in inputs],
@@ -299,16 +340,68 @@ def run(sim):
     # ---- aggregate construction is the first operation
     snap = snapshot()
     sim.event("aggregate", kind, *flags)
-    with sim.guard("construct-raised", kind):
+    callers_list = None     # `inputs` stays the harness's own record; the aggregate never sees that object
+    if passed_as in ("list", "list-edited"):
+        given = callers_list = list(inputs)
+    elif passed_as == "tuple":
+        given = tuple(inputs)
+    elif passed_as == "sequence":
+        given = PlainSequence(inputs)
+    else:
+        given = iter(tuple(inputs))
+    if passed_as not in ("list", "list-edited"):
+        sim.probe("passed_as_" + passed_as)
+    with sim.guard("construct-raised", kind + ":" + passed_as.split("-")[0]):
         if kind == "dl":
-            agg = defer.DeferredList(inputs, fireOnOneCallback=flags[0], fireOnOneErrback=flags[1], consumeErrors=flags[2])
+            agg = defer.DeferredList(given, fireOnOneCallback=flags[0], fireOnOneErrback=flags[1], consumeErrors=flags[2])
         elif kind == "gather":
-            agg = defer.gatherResults(inputs, consumeErrors=flags[2])
+            agg = defer.gatherResults(given, consumeErrors=flags[2])
         else:
-            agg = defer.race(inputs)
+            agg = defer.race(given)
     agg_box.append(agg)
     agg.addBoth(on_agg)
     check_all(snap, "construct")
+
+    def outsider():
+        x = CountingDeferred(None)
+        outsiders.append(x)
+        return x
+
+    def op_edit_list():
+        """The caller goes on using ITS list object (next batch, one more operation, reordering ...)."""
+        how = sim.draw_choice(EDITS, "edit")
+        lst = callers_list
+        sim.event("edit-list", how, len(lst))
+        if how == "clear":
+            lst.clear()
+        elif how == "append":
+            lst.append(outsider())
+        elif how == "pop":
+            if lst:
+                lst.pop()
+        elif how == "reverse":
+            lst.reverse()
+        elif how == "slice-assign":
+            lst[:] = [outsider() for _ in range(sim.draw_int(0, 3, "new_len"))]
+        elif how == "pop-first":
+            if lst:
+                lst.pop(0)
+        elif how == "insert-first":
+            lst.insert(0, outsider())
+        elif how == "setitem":
+            if lst:
+                lst[sim.draw_int(0, len(lst) - 1, "at")] = outsider()
+        else:
+            del lst[sim.draw_int(0, len(lst), "from"):]
+        st["edits"] += 1
+        sim.fault("caller_edits_own_list")
+        if not agg_res:
+            sim.probe("list_edited_while_aggregate_undecided")
+
+    if edit_now_p and sim.draw_bool(edit_now_p, "edit_now"):
+        snap = snapshot()
+        op_edit_list()
+        check_all(snap, "edit-list")
 
     def op_fire(ok):
         un = [j for j in range(n) if not done[j]]
@@ -355,7 +448,8 @@ def run(sim):
         steps += 1
         sim.step(400)
         snap = snapshot()
-        op = sim.draw_weighted([("ok", 5), ("fail", 4), ("observe", 3), ("cancel-agg", cancel_w), ("cancel-input", 1)], "op")
+        op = sim.draw_weighted([("ok", 5), ("fail", 4), ("observe", 3), ("cancel-agg", cancel_w), ("cancel-input", 1),
+                                ("edit-list", edit_w)], "op")
         if op == "ok":
             op_fire(True)
         elif op == "fail":
@@ -364,6 +458,8 @@ def run(sim):
             add_observer(sim.draw_int(0, n - 1, "which"))
         elif op == "cancel-agg":
             op_cancel_agg()
+        elif op == "edit-list":
+            op_edit_list()
         else:
             op_cancel_input()
         check_all(snap, op)
@@ -380,7 +476,7 @@ def run(sim):
         add_observer(j)
     check_all(snap, "final")
     sim.check("all-fired-aggregate-fired", len(agg_res) == 1, kind, "every input fired but aggregate fired %d times" % len(agg_res))
-    for d in inputs:
+    for d in inputs + outsiders:
         d.addErrback(lambda f: None)
     sim.nontrivial = n >= 2 and st["fired_after"] > 0 and (st["failures"] > 0 or st["cancels"] > 0)
 
@@ -394,4 +490,9 @@ MUTANTS = [
     "defer.py race.failed: failure_state.sort() removed (failures in firing order instead of input order): CAUGHT",
     "defer.py DeferredList.cancel: skips the first input (_deferredList[1:]): CAUGHT (cancel-propagates)",
     "defer.py race.succeeded: 'if winner is None' -> 'if True' (second success fires the result again): CAUGHT",
+    "defer.py race: to_cancel is the caller's list when a list is given (no copy): CAUGHT (fires-when-due:race:win, cancel-propagates:race, "
+    "outsider-cancelled:race) - needs the caller to edit its own list after the call",
+    "defer.py DeferredList.__init__: _deferredList is the caller's list when a list is given (no copy): CAUGHT (cancel-propagates, outsider-cancelled)",
+    "defer.py DeferredList.__init__: resultList sized with len(deferredList) (argument, not the copy): CAUGHT (construct-raised:*:iterator)",
+    "defer.py DeferredList.__init__: callbacks attached by iterating the argument a second time: CAUGHT (fires-when-due, one-shot iterator)",
 ]
